@@ -3,6 +3,9 @@ package checks
 import (
 	"sort"
 	"strings"
+
+	"qverif/engine"
+	"qverif/rules"
 )
 
 type PropCheck struct {
@@ -59,6 +62,7 @@ func init() {
 		RunOps(c, OpFilter{Methods: append(append([]string{}, differentiableOps...), "Concat"), Keep: func(rule, construct string) bool {
 			return isGradRule(rule) && !isBroadcastConstruct(construct)
 		}})
+		c.R.Rule("tracked subsets: for multi-operand operations every subset of tracked operands is instantiated; an untracked operand may have no back edge, a tracked one exactly one")
 		c.R.Min("op.closure_evaluations", 300)
 		c.R.Min("op.vjp_comparisons", 300)
 		c.R.NotDecide("numeric conditioning; Max/MinAlong at ties; that the forward kernels are the mathematical functions (C03/C05)")
@@ -75,8 +79,98 @@ func init() {
 			}
 			// routing of implicit expansions: edge-structure rules of the six operations
 			return rule == "S1c.edges" || rule == "S1b.operands"
+		}, KeepF: func(f engine.Finding) bool {
+			// any gradient failure of an implicitly expanding instance (e.g. an expansion that bypasses the public Broadcast)
+			return f.Expanding && isGradRule(f.Rule)
 		}})
 		c.R.Min("op.closure_evaluations", 200)
+		addOpsAssumptions(c)
+	})
+}
+
+func init() {
+	register("C01", "back-propagation yields the total derivative on any DAG; bounded work", func(c *Ctx) {
+		rules.S2Walk(c.P, c.A, c.R)
+		c.R.Rule("C01.total: the real BackPropagate is abstractly interpreted on enumerated DAG templates (every program of <=k point-wise steps over 1-2 leaves, hand-picked diamonds/ladders/fan-outs/multi-root templates, seeded random deeper ones); each tracked leaf's accumulated gradient expression must equal the symbolic derivative of the root's composite forward expression; untracked/unrelated tensors get none")
+		c.R.Rule("C01.bounded: on each template the number of backward-rule applications is at most 1 + the number of back edges to tracked tensors")
+		e := engine.NewOpEngine(c.P, c.A)
+		st := &engine.WalkStats{}
+		progs := engine.TemplatePrograms()
+		k := 2
+		nrand := 60
+		if c.Tier == "thorough" {
+			k, nrand = 3, 600
+		}
+		for kk := 1; kk <= k; kk++ {
+			progs = append(progs, engine.EnumeratePrograms([]bool{true}, kk)...)
+			if kk <= 2 {
+				progs = append(progs, engine.EnumeratePrograms([]bool{true, false}, kk)...)
+				progs = append(progs, engine.EnumeratePrograms([]bool{true, true}, kk)...)
+			}
+		}
+		progs = append(progs, engine.RandomPrograms(c.Seed+1, nrand, 4, 8)...)
+		for i, pr := range progs {
+			e.RunProgram(pr, st)
+			if i < 3 || (i > 20 && i < 23) {
+				c.R.Sample(map[string]string{"program": pr.String()})
+			}
+		}
+		fileOps(c, e, OpFilter{Keep: func(rule, construct string) bool {
+			return strings.HasPrefix(rule, "C01.") || rule == "interp" || rule == "S6.panic"
+		}})
+		c.R.Count("walk.programs", st.Programs)
+		c.R.Count("walk.leaf_gradient_comparisons", st.GradChecks)
+		c.R.Count("walk.rule_applications_interpreted", st.ClosureRuns)
+		c.R.Min("walk.programs", 200)
+		c.R.Min("walk.leaf_gradient_comparisons", 200)
+		for fn := range e.Funcs {
+			c.R.Func(fn)
+		}
+		c.R.NotDecide("DAGs outside the enumerated templates (the structural rules S2a-d hold for all graphs; value equality is established per template)")
+		c.R.NotDecide("operations other than Scale/Exp/Add/Mul inside the templates (their local rules are C02)")
+		addOpsAssumptions(c)
+	})
+	register("C08", "tracking propagates, isolates and retires as specified", func(c *Ctx) {
+		c.R.Rule("C08.state: for every public operation and every combination of (tracked, spent) flags of its operands, the attached context is: spent+untracked if any operand is spent; else tracked iff some operand is tracked (never for comparisons); fresh results carry no gradient; untracked results carry no back edges")
+		c.R.Rule("S1a: no public operation returns a tensor without a gradient context; S1c: a tracked result has exactly one back edge per tensor operand")
+		c.R.Rule("C08.bp: interpreting the real BackPropagate on DAG templates, exactly the root and the tracked tensors it was computed from end spent and with a gradient; gradients are untracked; nothing else is touched; an untracked root changes nothing")
+		c.R.Rule("C08.reset: ResetGradContext(b) on a tensor in any state yields tracked=b, not spent, no gradient, no edges")
+		c.R.Rule("S3: field-write ownership of GradContext / CPUTensor fields; the data layer never reads gctx (tracking cannot change forward values)")
+		e := engine.NewOpEngine(c.P, c.A)
+		calls := e.FlagInstances()
+		for i, call := range calls {
+			e.RunInstance(call)
+			if i%97 == 0 {
+				c.R.Sample(map[string]string{"instance": call.Label})
+			}
+		}
+		e.RunResetChecks()
+		st := &engine.WalkStats{}
+		progs := engine.TemplatePrograms()
+		progs = append(progs, engine.EnumeratePrograms([]bool{true, false}, 1)...)
+		progs = append(progs, engine.EnumeratePrograms([]bool{true, false}, 2)...)
+		progs = append(progs, engine.EnumeratePrograms([]bool{false}, 1)...)
+		if c.Tier == "thorough" {
+			progs = append(progs, engine.EnumeratePrograms([]bool{true, true}, 2)...)
+			progs = append(progs, engine.RandomPrograms(c.Seed+7, 300, 3, 7)...)
+		}
+		for _, pr := range progs {
+			e.RunProgram(pr, st)
+		}
+		fileOps(c, e, OpFilter{Keep: func(rule, construct string) bool {
+			return strings.HasPrefix(rule, "C08.") || rule == "S1a.gctx" || rule == "S1c.edges" || rule == "interp" || rule == "S6.panic"
+		}})
+		rules.S3Ownership(c.P, c.A, c.R)
+		c.R.Count("flags.instances", len(calls))
+		c.R.Count("walk.programs", st.Programs)
+		c.R.Count("walk.state_checks", st.StateChecks)
+		c.R.Count("op.state_checks", e.StateChecks)
+		c.R.Min("flags.instances", 400)
+		c.R.Min("op.state_checks", 400)
+		for fn := range e.Funcs {
+			c.R.Func(fn)
+		}
+		c.R.NotDecide("provisos (a),(b) of the quantifier are preconditions on the caller and are not checked")
 		addOpsAssumptions(c)
 	})
 }
